@@ -157,7 +157,7 @@ func views(base []int, pre, n int, rs [][]int) string {
 }
 
 func exec(in string) string {
-	f := strings.Fields(in)
+	f := strings.Fields(strings.ReplaceAll(in, "_", " ")) // "_" for blanks: inputs reported by the extra steps
 	curOp = f[0]
 	if f[0] == "S" {
 		i, _ := strconv.Atoi(f[1])
